@@ -209,6 +209,57 @@ class CProg:
             cs += self.pcone_cons(vs, set(blk['pcones']))
         return cs
 
+    def eliminated(self, blk, vs):
+        """Exact Gaussian elimination of continuous local columns through the equality rows of a block.
+
+        Returns (vs2, remaining): vs2 is vs with every eliminated local column replaced by the linear z3 term
+        that its defining equality forces (over the remaining columns); block_cons(blk, vs2) is then
+        equivalent to  exists eliminated columns: block_cons(blk, vs).  Integer columns are never eliminated."""
+        z3 = z3mod()
+        locs = set(blk['locals'])
+        sub = {}                                   # col -> (dict col->Fraction, const)
+
+        def apply(d, c):
+            out, cc = {}, c
+            for j, k in d.items():
+                if j in sub:
+                    dj, cj = sub[j]
+                    cc = cc - k * cj               # row: sum d x (s) c ; x_j = cj + dj.x  ->  move k*cj to the rhs
+                    for jj, kk in dj.items():
+                        out[jj] = out.get(jj, 0) + k * kk
+                else:
+                    out[j] = out.get(j, 0) + k
+            return {j: k for j, k in out.items() if k != 0}, cc
+
+        for i in blk['rows']:
+            d, c, sgn = self.rows[i]
+            if sgn != 1:
+                continue
+            d, c = apply(d, c)
+            cand = [j for j in d if j in locs and self.vtype[j] == 'C']
+            if not cand:
+                continue
+            j = min(cand, key=lambda t: (len(d), t))
+            kj = d[j]
+            dj = {jj: -kk / kj for jj, kk in d.items() if jj != j}
+            cj = c / kj
+            for t in list(sub):
+                dt, ct = sub[t]
+                if j in dt:
+                    k = dt.pop(j)
+                    ct = ct + k * cj
+                    for jj, kk in dj.items():
+                        dt[jj] = dt.get(jj, 0) + k * kk
+                    sub[t] = ({a: b for a, b in dt.items() if b != 0}, ct)
+            sub[j] = (dj, cj)
+        vs2 = list(vs)
+        for j, (dj, cj) in sub.items():
+            t = z3.RealVal(str(cj))
+            for jj, kk in dj.items():
+                t = t + z3.RealVal(str(kk)) * vs[jj]
+            vs2[j] = t
+        return vs2, sorted(locs - set(sub))
+
     def summary(self):
         return dict(rows=self.m, cols=self.n, soc=len(self.qmat), exp=len(self.xmat),
                     ints=sum(1 for t in self.vtype if t != 'C'))
